@@ -18,7 +18,9 @@ REPO = os.environ.get("VERIF_REPO", "/repo")
 COQ = os.path.join(VERIF, "coq")
 OCAML = os.path.join(VERIF, "ocaml")
 CACHE = os.path.join(VERIF, ".cache")
-EVIDENCE = os.path.join(VERIF, "evidence")
+# runs against a scratch copy of the repository (seeded-change evaluation) must not overwrite the evidence of /repo
+EVIDENCE = (os.path.join(VERIF, "evidence") if os.path.realpath(REPO) == "/repo"
+            else os.path.join("/var/tmp", "verif-alt-evidence"))
 REPLAYS = os.path.join(VERIF, "replays")
 PY = "/venv/bin/python"
 NPROC = os.cpu_count() or 4
